@@ -11,7 +11,7 @@ use crate::rec_more;
 use clarabel::solver::*;
 use clarabel::verif;
 use rand::rngs::StdRng;
-use rand::SeedableRng;
+use rand::{Rng, SeedableRng};
 use serde_json::{json, Value};
 use std::panic::{catch_unwind, AssertUnwindSafe};
 
@@ -237,4 +237,207 @@ pub fn run_one(run: usize, p: &Problem) -> (Vec<Value>, (usize, usize)) {
         }
     }
     (out, (skipped, 0))
+}
+
+// =====================================================================================================================
+// Centrality.tla / Trace_Centrality.tla: the barrier line search of the dual scaling strategy
+// =====================================================================================================================
+
+/// compare a logged value with the observer's, non-finite values by class
+fn cmp_pair(logged: f64, obs: f64, tol: f64) -> Value {
+    if logged.is_finite() && obs.is_finite() { pair((logged - obs).abs(), tol + TINY) }
+    else if logged == obs || (logged.is_nan() && obs.is_nan()) { pair(0.0, TINY) }
+    else { pair(f64::INFINITY, 0.0) }
+}
+
+/// observer's barrier term of one symmetric cone at (s, z): (value, tolerance), None when the point is too close to the
+/// boundary for the sign of a residual to be decided (the probe is then not compared), Some(None) never
+fn sym_term(c: &ConeSpec, s: &[f64], z: &[f64]) -> Option<Option<(f64, f64)>> {
+    match c {
+        ConeSpec::Zero(_) => Some(Some((0.0, 0.0))),
+        ConeSpec::Nonneg(_) => {
+            // AS IN THE CODE: + sum log(s_i z_i)   (named deviation, see Centrality.tla)
+            let mut acc = 0.0;
+            let mut abs = 0.0;
+            for i in 0..s.len() {
+                let p = s[i] * z[i];
+                let l = if p <= 0.0 { f64::NEG_INFINITY } else { p.ln() };
+                acc += l;
+                abs += l.abs() + 4.0;
+            }
+            Some(Some((acc, 64.0 * EPS * (s.len() as f64 + 2.0) * abs)))
+        }
+        ConeSpec::Soc(_) => {
+            let res = |v: &[f64]| -> (f64, f64) {
+                let t: f64 = v[1..].iter().map(|x| x * x).sum();
+                (v[0] * v[0] - t, v[0] * v[0] + t)
+            };
+            let (rs, ss) = res(s);
+            let (rz, sz) = res(z);
+            if rs.abs() < 1e-9 * ss || rz.abs() < 1e-9 * sz { return None; }
+            if rs > 0.0 && rz > 0.0 {
+                let v = -0.5 * (rs.ln() + rz.ln());
+                let cond = ss / rs + sz / rz;
+                Some(Some((v, 64.0 * EPS * (s.len() as f64 + 2.0) * (cond + v.abs() + 2.0))))
+            } else { Some(Some((f64::INFINITY, 0.0))) }
+        }
+        ConeSpec::Psd(n) => {
+            let ld = |v: &[f64]| -> Option<(f64, f64)> {
+                let e = observer::jacobi_eigs(&observer::smat(v, *n));
+                let mx = e.iter().fold(0.0f64, |a, x| a.max(x.abs()));
+                let mn = e.iter().fold(f64::INFINITY, |a, x| a.min(*x));
+                if mn.abs() < 1e-9 * mx.max(1e-300) { return None; }
+                if mn <= 0.0 { return Some((f64::NEG_INFINITY, 0.0)); }
+                Some((e.iter().map(|x| x.ln()).sum(), mx / mn))
+            };
+            let (a, ca) = ld(s)?;
+            let (b, cb) = ld(z)?;
+            if a == f64::NEG_INFINITY || b == f64::NEG_INFINITY { return Some(Some((f64::INFINITY, 0.0))); }
+            let v = -a - b;
+            Some(Some((v, 1e-10 * (*n as f64) * (2.0 + a.abs() + b.abs()) + 256.0 * EPS * (*n as f64) * (ca + cb))))
+        }
+        _ => Some(None),       // nonsymmetric cones: the term is taken as logged (C14)
+    }
+}
+
+struct ProbeAcc { alpha: f64, terms: Vec<(usize, usize, f64)> }
+
+/// Centrality events of one run
+pub fn centrality_lines(run: usize, p: &Problem) -> (Vec<Value>, usize) {
+    let st = p.settings();
+    let P = p.P.to_clarabel();
+    let A = p.A.to_clarabel();
+    let cones = p.clarabel_cones();
+    let res = catch_unwind(AssertUnwindSafe(|| {
+        let mut solver = DefaultSolver::new(&P, &p.q, &A, &p.b, &cones, st);
+        let icones: Vec<ConeSpec> = solver.data.cones.iter().map(ConeSpec::from_clarabel).collect();
+        verif::set_step_log(true);
+        verif::start();
+        solver.solve();
+        let evs = verif::take();
+        verif::set_step_log(false);
+        (evs, icones)
+    }));
+    verif::set_step_log(false);
+    let (evs, icones) = match res { Ok(v) => v, Err(_) => { let _ = verif::take(); return (vec![], 0); } };
+    let mut starts = std::collections::HashMap::new();
+    let mut off = 0usize;
+    for c in &icones { starts.insert(off, c.clone()); off += c.numel(); }
+    let mut out = vec![];
+    let mut skipped = 0usize;
+    let mut last_step: Option<&verif::Event> = None;
+    let mut dual = false;
+    let mut pass = 0i64;
+    let mut search: Option<(f64, f64)> = None;
+    let mut probes: Vec<Value> = vec![];
+    let mut cur = ProbeAcc { alpha: f64::NAN, terms: vec![] };
+    for e in &evs {
+        match e.name {
+            "Scale" => { dual = e.i[2] != 0; }
+            "KKTUpdate" => { pass = e.i[0]; }
+            "StepSolved" => { last_step = Some(e); }
+            "BarrierSearch" => { search = Some((e.f[0], e.f[1])); probes.clear(); cur = ProbeAcc { alpha: f64::NAN, terms: vec![] }; }
+            "ConeBarrierTerm" if search.is_some() => { cur.alpha = e.f[0]; cur.terms.push((e.i[0] as usize, e.i[1] as usize, e.f[1])); }
+            "Barrier" if search.is_some() => {
+                let (alpha, mu, tau1, kappa1, total) = (e.f[0], e.f[1], e.f[2], e.f[3], e.f[4]);
+                let nu = e.i[0] as f64;
+                let mut skip = last_step.is_none();
+                let mut sym_terms = vec![];
+                let mut mu_pair = pair(0.0, TINY);
+                let mut total_pair = pair(0.0, TINY);
+                if let Some(sv) = last_step {
+                    let (dtau, dkappa, tau, kappa) = (sv.f[0], sv.f[1], sv.f[4], sv.f[5]);
+                    let (dz, ds, z, s) = (&sv.v[5], &sv.v[6], &sv.v[8], &sv.v[9]);
+                    let s1: Vec<f64> = (0..s.len()).map(|i| s[i] + alpha * ds[i]).collect();
+                    let z1: Vec<f64> = (0..z.len()).map(|i| z[i] + alpha * dz[i]).collect();
+                    let (t1, k1) = (tau + alpha * dtau, kappa + alpha * dkappa);
+                    let sz = observer::dot(&s1, &z1);
+                    let sza = observer::absdot(&s1, &z1);
+                    let mu_obs = (sz + t1 * k1) / (nu + 1.0);
+                    mu_pair = cmp_pair(mu, mu_obs, 64.0 * EPS * (s.len() as f64 + 4.0) * (sza + (t1 * k1).abs()) / (nu + 1.0));
+                    let tk = cmp_pair(tau1, t1, 8.0 * EPS * (tau.abs() + (alpha * dtau).abs()));
+                    let kk = cmp_pair(kappa1, k1, 8.0 * EPS * (kappa.abs() + (alpha * dkappa).abs()));
+                    sym_terms.push(tk);
+                    sym_terms.push(kk);
+                    let ls = |v: f64| if v <= 0.0 { f64::NEG_INFINITY } else { v.ln() };
+                    let parts = [(nu + 1.0) * ls(mu), -ls(tau1), -ls(kappa1)];
+                    let cone_sum: f64 = cur.terms.iter().map(|t| t.2).sum();
+                    let abs_sum: f64 = parts.iter().map(|v| v.abs()).sum::<f64>() + cur.terms.iter().map(|t| t.2.abs()).sum::<f64>();
+                    let total_obs = parts[0] + parts[1] + parts[2] + cone_sum;
+                    total_pair = cmp_pair(total, total_obs, 64.0 * EPS * (cur.terms.len() as f64 + 6.0) * (abs_sum + 1.0));
+                    let mut covered = 0usize;
+                    for (a, b, term) in &cur.terms {
+                        covered += b - a;
+                        match starts.get(a) {
+                            Some(c) if c.numel() == b - a => match sym_term(c, &s1[*a..*b], &z1[*a..*b]) {
+                                None => { skip = true; }
+                                Some(None) => {}
+                                Some(Some((v, tol))) => sym_terms.push(cmp_pair(*term, v, tol)),
+                            },
+                            _ => sym_terms.push(pair(f64::INFINITY, 0.0)),     // a term for a range that is not a cone of the problem
+                        }
+                    }
+                    if covered != s.len() { sym_terms.push(pair(f64::INFINITY, 0.0)); }   // every row belongs to exactly one logged term
+                    if !(alpha == cur.alpha || cur.terms.is_empty()) { sym_terms.push(pair(f64::INFINITY, 0.0)); }
+                }
+                probes.push(json!({"alpha": fj(alpha), "barrier": fj(total), "skip": skip, "mu": mu_pair, "total": total_pair, "sym_terms": sym_terms}));
+                cur = ProbeAcc { alpha: f64::NAN, terms: vec![] };
+            }
+            "BarrierResult" if search.is_some() => {
+                let (a0, step) = search.take().unwrap();
+                let mut exp = vec![a0];
+                for i in 0..50 { let v = step * exp[i]; exp.push(v); }
+                skipped += probes.iter().filter(|p| p["skip"] == true).count();
+                out.push(json!({"ev": "Centrality", "run": run, "pass": pass, "alpha_init": fj(a0), "step": fj(step), "one": fj(1.0),
+                                "expected_alpha": fjv(&exp), "probes": probes.clone(), "passed": e.i[0] != 0, "result": fj(e.f[0]),
+                                "dual_scaling": dual, "combined": last_step.map(|s| s.i[0] != 0).unwrap_or(false)}));
+                probes.clear();
+            }
+            _ => {}
+        }
+    }
+    (out, skipped)
+}
+
+fn centrality_problem(k: usize, rng: &mut StdRng) -> Problem {
+    // dual scaling from the first pass needs a generalised power cone; the other cones are drawn freely around it
+    let n = rng.gen_range(2..=14usize);
+    let mut o = GenOpts { nmax: n, max_cones: 4, soc_max: 7, psd_max: if k % 3 == 0 { 3 } else { 0 }, density: 0.6, mag_exp: [0.0, 1.0, 3.0][k % 3], ..Default::default() };
+    o.allow_zero = n >= 4;
+    for _ in 0..200 {
+        let mut p = gen::planted_feasible(rng, &o);
+        if p.cones.iter().any(|c| matches!(c, ConeSpec::GenPow(_, _))) {
+            if k % 4 == 3 { let f = [0.5, 0.9, 0.65][k % 3]; p.settings = json!({"linesearch_backtrack_step": f}); }
+            p.tag = "centrality".into();
+            return p;
+        }
+    }
+    let mut p = rec_more::family_g(rng);
+    p.tag = "centrality+g".into();
+    p
+}
+
+pub fn centrality(seed: u64, count: usize) -> (Vec<Value>, Vec<Value>, Value) {
+    let mut rng = StdRng::seed_from_u64(seed ^ 0xce27);
+    let mut out = vec![];
+    let mut cases = vec![];
+    let (mut skipped, mut searches, mut backtracked, mut gaveup, mut with_soc, mut with_nn, mut with_psd) = (0, 0, 0, 0, 0, 0, 0);
+    for run in 0..count {
+        let p = centrality_problem(run, &mut rng);
+        cases.push(json!({"run": run, "problem": p}));
+        let (l, sk) = centrality_lines(run, &p);
+        skipped += sk;
+        searches += l.len();
+        backtracked += l.iter().filter(|e| e["probes"].as_array().unwrap().len() > 1).count();
+        gaveup += l.iter().filter(|e| e["passed"] == false).count();
+        if !l.is_empty() {
+            if p.cones.iter().any(|c| matches!(c, ConeSpec::Soc(_))) { with_soc += 1; }
+            if p.cones.iter().any(|c| matches!(c, ConeSpec::Nonneg(_))) { with_nn += 1; }
+            if p.cones.iter().any(|c| matches!(c, ConeSpec::Psd(_))) { with_psd += 1; }
+        }
+        out.extend(l);
+    }
+    let meta = json!({"runs": count, "searches": searches, "backtracked": backtracked, "gave_up": gaveup, "skipped_probes": skipped,
+                      "runs_with_soc": with_soc, "runs_with_nonneg": with_nn, "runs_with_psd": with_psd});
+    (out, cases, meta)
 }
